@@ -19,4 +19,17 @@ PROPS = {
         trusted_base=TB_COMMON + ["modelled: flat.go deflate0-3/inflate0-3, per-type SetCoords/Coords, Layout.Stride"],
         assumptions=["slices have cap == len (spare capacity not modelled)", "stride-0 inputs with zero-length leaf coordinates are only required not to panic"],
     ),
+    "C02": dict(
+        modules=["GeomVerif.Properties.C02"],
+        n_quick=4000, n_thorough=60000, thorough_seeds=4, min_theorems=2,
+        rule="random operation histories (length 1..40, 2% up to 400) over {Push(part) 40%, of which 1/6 wrong layout; Reverse; "
+             "Clone; Swap; Num; Coords; part accessor incl. out-of-range index} on Polygon, MultiLineString, MultiPoint, MultiPolygon; "
+             "parts empty with P=1/3; layouts XY/XYZ/XYM/XYZM/Layout(5)/Layout(6), 1/40 NoLayout; arbitrary ordinate bit patterns. "
+             "Go observations are compared with the Lean model of the code and with the list-of-parts specification (the oracle). "
+             "non-trivial = history text longer than 24 characters; distinct = distinct history hashes",
+        trusted_base=TB_COMMON + ["modelled: Push/part accessors/Num/Reverse/Swap of polygon.go, multilinestring.go, multipoint.go, multipolygon.go; "
+                                  "reverse1's in-place swap loop is summarised by its effect on whole coordinates (validated by the correspondence)",
+                                  "refinement theorem proved for Polygon/MultiLineString; MultiPoint/MultiPolygon machines are checked against their specs by the correspondence run only"],
+        assumptions=["Clone is the identity in the value model (storage separation is C16)", "pushed parts are valid geometries of their own layout"],
+    ),
 }
